@@ -6,13 +6,13 @@ import os
 from . import env
 
 TEXT = {
-    "C01": ("Every history of public mutators (root and retained children to depth 3) up to the stated depth is executed on the real class for all 18 concrete classes; after each call the resource, read independently, must equal a built-in dict/list reference.", "Server backends run against in-process fake stores; bounded depth and argument alphabet."),
-    "C02": ("All histories (bounded depth) of outside rewrites of any position to any JSON kind, reads through roots and retained children, writes through children and through a second object are executed on the real classes; every read must return the reference content at call time.", "Outside writer advances mtime; root-kind changes and resource deletion excluded (documented conventions)."),
+    "C01": ("Every history of public mutators (root and retained children to depth 3) up to the stated depth is executed on the real class for all 18 concrete classes; after each call the resource, read independently, must equal a built-in dict/list reference; histories include an outside writer between mutators, saves that fail once, and rewrites with equal-but-different (type-twin) and same-type-different values.", "Server backends run against in-process fake stores; bounded depth and argument alphabet."),
+    "C02": ("All histories (bounded depth) of outside rewrites of any position to any JSON kind, reads through roots and retained children, writes through children and through a second object are executed on the real classes; every read must return the reference content at call time, also after a mutator that was rejected half-way (the reference then follows the backend).", "Outside writer advances mtime; root-kind changes and resource deletion excluded (documented conventions)."),
     "C03": ("The whole MutableMapping/MutableSequence surface incl. mixins, slices, out-of-range indices, malformed arguments and all six comparison operators is composed into histories up to the stated depth; each call's result, exception class and resulting content must equal the built-in's.", "Only the four documented deviations are allowed; bounded depth/alphabet."),
     "C04": ("All histories (bounded depth) of mutators issued alternately through any handle (k objects on one resource, each with stale retained children) are executed; the resource must equal one shared plain structure after every step.", "Single thread; bounded depth."),
     "C05": ("All well-nested words of per-object and backend-wide buffered contexts interleaved with mutators/reads are executed on the 8 buffered classes; results must equal the unbuffered reference, the file must stay untouched (inode/mtime/size/bytes) until the outermost exit, and hold the final content there.", "Default capacity for the no-write oracle; one object per file."),
     "C06": ("All assignments of reads/writes to k objects on one file under a common buffered state, with every exit order, are executed; reads must see the shared content and the file after the common exit must contain every write.", "Objects are always in the same buffered state when operations are issued (documented requirement)."),
-    "C07": ("All assignments of {modified, read-only, untouched} x {outside change before/after first buffered access, never} to n files, every access order, context kind and a policy-independent forced flush are executed; errors must name exactly the conflicting files, outside content must survive, clean files must be written and the buffer must be pristine afterwards.", "Outside rewrites change size or mtime (the library's detection mechanism); writes always change content."),
+    "C07": ("All assignments of {modified, read-only, untouched} x {outside change before/after first buffered access, never} to n files, every access order, context kind and a policy-independent forced flush are executed; errors must name exactly the conflicting files, outside content must survive, clean files must be written and the buffer must be pristine afterwards; plus every bounded sequence of reads/writes/outside changes and forced flushes FOLLOWED by more operations, judged by 'an outside change or a write disappears only after an error naming the file'.", "Outside rewrites change (size, mtime) - larger mtimes with any size, or smaller mtimes with the same size; files may not exist when they enter the buffer (the library's detection mechanism); writes always change content."),
     "C08": ("Every crash point (each executed library line of the save window, every prefix of every write(), every unflushed write) of every listed save/flush history is exercised by killing a forked child there; each file must be byte-identical to a complete version and open normally.", "Process death on a POSIX file system, not power loss."),
     "C09": ("All schedules up to the preemption bound of every 2-thread program over all pairs of public mutators and 8 handle topologies run on the real classes under a controlled scheduler; every observation must equal that of a serial order.", "Preemption granularity = source line of library code; bounded threads/ops/preemptions."),
     "C10": ("Every environment call of every operation kind is failed with every applicable error and afterwards all locks must be free and a second thread must complete; all schedules of lock-taking paths must be deadlock-free; re-pointing histories must not disturb other objects.", "One injected fault at a time; bounded programs."),
@@ -20,10 +20,10 @@ TEXT = {
     "C12": ("All JSON values up to a node bound (structure) and all boundary scalars/keys at every leaf position (leaves) are stored through every entry point of every class and read back through a fresh object with exact leaf types.", "Exhaustive up to the size bound only; no random tail (sampling is outside this technique)."),
     "C13": ("All schedules up to the preemption bound of 2-thread programs of buffered mutators inside a backend-wide context for 3 topologies x capacities x both strategies; observation must equal a serial order, no buffer error, size back to 0.", "Same as C09."),
     "C14": ("All schedules up to the preemption bound of reader||writer programs (same object / two objects on one file, unbuffered and buffered) must be equivalent to a serial position of the read.", "Same as C09; live container results observed by kind."),
-    "C15": ("All histories (bounded depth) over several files with context nesting, capacity overrides and set_buffer_capacity are executed; after every call the reported size must be within capacity, consistent with the observable dirty files, and 0 outside contexts; capacities must be restored.", "Exact recomputation uses the entry table when introspectable."),
+    "C15": ("All histories (bounded depth) over several files with context nesting, capacity overrides and set_buffer_capacity are executed; after every call the reported size must be within capacity, consistent with the observable dirty files, and 0 outside contexts; capacities must be restored; plus every environment call of ten flushing/buffered windows failing once with every applicable errno, after which the accounting must be back at rest.", "Exact recomputation uses the entry table when introspectable."),
     "C16": ("Every container-taking entry point with every nested argument shape and every container-returning operation is executed; afterwards every reachable container of the user-held argument/result is mutated and the collection and resource must not change.", "Bounded shapes (depth 3)."),
-    "C17": ("All sequences (bounded depth) of read operations and context enter/exit on existing and missing resources for every class; the resource must not be written, created or re-stamped.", "Observation = stat/bytes of the file, write counters of the fake stores, audit of write-mode opens."),
-    "C18": ("After every event of mixed histories the tree is walked and every container must be of the root's family; for every key of a large pool (protected names, method names, dunders, non-identifiers) attribute and item programs must coincide on fresh objects.", "Key pool enumerated from the classes themselves."),
+    "C17": ("All sequences (bounded depth) of read operations and context enter/exit on existing and missing resources for every class; the resource (and the resource of a synced comparison operand) must not be written, created or re-stamped; a missing file next to the debris of a killed first save must stay missing and the debris untouched.", "Observation = stat/bytes of the file, write counters of the fake stores, audit of write-mode opens."),
+    "C18": ("After every event of mixed histories the tree is walked and every container must be of the root's family; for every key of a large pool (protected names, method names, dunders, non-identifiers) attribute and item programs must coincide on fresh objects; part (a) runs after every other class family has done ordinary work in the process and also stores live collections of other families as values.", "Key pool enumerated from the classes themselves."),
     "C19": ("Every warm-up history (bounded length) over a pool of diversely-typed values is executed in a forked child of a pristine parent and each probe outcome is compared with a fresh-interpreter baseline.", "numpy installed privately for the harness; pool of types is finite."),
 }
 TECH = {
@@ -60,7 +60,7 @@ def main():
              "kind_free_text": "baton scheduler over real threads (sys.settrace line events in library code = scheduling points, interposed re-entrant locks), CHESS-style preemption-bounded DFS, serial-order oracle on the implementation"},
             {"name": "FAULT", "path": "mc/fault.py", "serves_properties": [p for p in built if ENGINE[p] == "FAULT"],
              "kind_free_text": "crash-point enumeration (fork + os._exit at every line / write prefix) and errno injection at every environment call"},
-            {"name": "ENUM", "path": "mc/enumcheck.py", "serves_properties": [p for p in built if ENGINE[p] == "ENUM"],
+            {"name": "ENUM", "path": "mc/seqcheck.py", "serves_properties": [p for p in built if ENGINE[p] == "ENUM"],
              "kind_free_text": "bounded-exhaustive input/program enumeration executed on the real classes"},
         ],
         "checks": [], "not_applicable": [],
